@@ -1,4 +1,5 @@
 """Sidecar contracts for btc_hd_wallet/script.py and the varint functions of helper.py (C19, C05)."""
+from . import summaries as _SUM_ALWAYS      # noqa: F401,E402  (summaries installed independent of import order)
 import z3
 from pyvc import logic as L
 from pyvc import engine as E
